@@ -37,3 +37,55 @@ fn category_name_roundtrip() {
     kani::assume(j < all.len() && j != i);
     assert!(all[j] != c);
 }
+
+// @harness name=category_identifier_property kind=Bk tier=quick props=C07 bound="every string of 0..=4 characters over the alphabet {'%', '_', 'A', 'z', '7', '.', '$'}" desc="Category::Identifier.validate(s) <=> s starts with a letter or '_' and continues with letters, digits, '_' or '.'; Category::Property.validate(s) <=> s, after AT MOST ONE leading '%', is such an identifier (so \"%%Foo\" is not a property); UpperCase / LowerCase.validate(s) <=> s holds no ASCII letter of the other case; Text accepts everything -- the oracle is written out character by character, independent of the library's closures"
+#[kani::proof]
+#[kani::unwind(6)]
+#[kani::stub(alloc::fmt::format, stub_format)]
+fn category_identifier_property() {
+    const ALPHA: [u8; 7] = [b'%', b'_', b'A', b'z', b'7', b'.', b'$'];
+    let n: usize = kani::any();
+    kani::assume(n <= 4);
+    let mut buf = [0u8; 4];
+    let mut i = 0;
+    while i < 4 {
+        let k: usize = kani::any();
+        kani::assume(k < 7);
+        buf[i] = ALPHA[k];
+        i += 1;
+    }
+    // ASCII only, so every prefix is valid UTF-8
+    let s: &str = unsafe { core::str::from_utf8_unchecked(&buf[..n]) };
+    let is_start = |b: u8| b == b'_' || b.is_ascii_alphabetic();
+    let is_cont = |b: u8| b == b'_' || b == b'.' || b.is_ascii_alphanumeric();
+    let ident_from = |from: usize| -> bool {
+        if from >= n || !is_start(buf[from]) {
+            return false;
+        }
+        let mut j = from + 1;
+        let mut ok = true;
+        while j < n {
+            if !is_cont(buf[j]) {
+                ok = false;
+            }
+            j += 1;
+        }
+        ok
+    };
+    let want_ident = ident_from(0);
+    let want_prop = if n > 0 && buf[0] == b'%' { ident_from(1) } else { ident_from(0) };
+    assert!(Category::Identifier.validate(s) == want_ident);
+    assert!(Category::Property.validate(s) == want_prop);
+    // UpperCase / LowerCase: no ASCII letter of the other case anywhere
+    let mut has_lower = false;
+    let mut has_upper = false;
+    let mut j = 0;
+    while j < n {
+        if buf[j].is_ascii_lowercase() { has_lower = true; }
+        if buf[j].is_ascii_uppercase() { has_upper = true; }
+        j += 1;
+    }
+    assert!(Category::UpperCase.validate(s) == !has_lower);
+    assert!(Category::LowerCase.validate(s) == !has_upper);
+    assert!(Category::Text.validate(s));
+}
